@@ -37,10 +37,11 @@ pub enum Fam {
     Staircase,
     FewMinterms,
     GatedPartSym,
+    OneHotWords,
 }
 
 impl Fam {
-    pub const ALL: [Fam; 19] = [
+    pub const ALL: [Fam; 20] = [
         Fam::Random,
         Fam::Sparse,
         Fam::Dense,
@@ -60,6 +61,7 @@ impl Fam {
         Fam::Staircase,
         Fam::FewMinterms,
         Fam::GatedPartSym,
+        Fam::OneHotWords,
     ];
     pub fn name(self) -> &'static str {
         match self {
@@ -82,6 +84,7 @@ impl Fam {
             Fam::Staircase => "staircase",
             Fam::FewMinterms => "few-minterms",
             Fam::GatedPartSym => "gated-partially-symmetric",
+            Fam::OneHotWords => "one-hot-words",
         }
     }
 }
@@ -265,6 +268,36 @@ pub fn gen(f: Fam, n: usize, rng: &mut Rng) -> Vec<u64> {
                 let b = get(&v, pos);
                 set(&mut v, pos, !b);
             }
+            v
+        }
+        Fam::OneHotWords => {
+            // every 64-bit word is one of: 0, all ones, a single bit (positions 0, 1, 31, 32, 62, 63 or random),
+            // all ones but one bit, rarely random — the values at which shifts by the word size, trailing/leading
+            // zero counts and carries behave specially
+            let mut v = vec![0u64; w];
+            for x in v.iter_mut() {
+                let bit = match rng.below(4) {
+                    0 => 63,
+                    1 => *rng.pick(&[0usize, 1, 31, 32, 62]),
+                    _ => rng.below(64),
+                };
+                *x = match rng.below(8) {
+                    0 | 1 => 0,
+                    2 => !0u64,
+                    3 | 4 | 5 => 1u64 << bit,
+                    6 => !(1u64 << bit),
+                    _ => rng.next_u64(),
+                };
+            }
+            if n < 6 {
+                let bit = rng.below(size);
+                v[0] = match rng.below(3) {
+                    0 => 1u64 << bit,
+                    1 => 1u64 << (size - 1),
+                    _ => low_mask(n) & !(1u64 << bit),
+                };
+            }
+            v[0] &= low_mask(n);
             v
         }
         Fam::FewMinterms => {
